@@ -58,7 +58,7 @@ func genCurve(r *gen.R, n int) ([]geom.Point, string) {
 	scale := math.Pow(10, r.Range(-2, 3))
 	ox, oy := r.Range(-10, 10)*scale, r.Range(-10, 10)*scale
 	pts := make([]geom.Point, 0, n)
-	shape := []string{"simple_walk", "simple_walk", "monotone", "zigzag", "spiral", "hook", "hook", "collinear", "random"}[r.Intn(9)]
+	shape := []string{"simple_walk", "simple_walk", "monotone", "zigzag", "spiral", "hook", "hook", "collinear", "random", "wedge"}[r.Intn(10)]
 	crosses := func(a, b geom.Point) bool {
 		m := len(pts)
 		for i := 0; i+1 < m; i++ {
@@ -140,6 +140,22 @@ func genCurve(r *gen.R, n int) ([]geom.Point, string) {
 			}
 			pts = append(pts, geom.Point{X: ox + t*dx - e*dy, Y: oy + t*dy + e*dx})
 		}
+	case "wedge":
+		// a thin wedge with its apex at the start: out along one side, back along the other
+		dx, dy := math.Cos(r.Range(0, 6.28)), math.Sin(r.Range(0, 6.28))
+		half := (n + 1) / 2
+		width := scale * math.Pow(10, r.Range(-4, -1))
+		for i := 0; i < half; i++ {
+			t := scale * float64(i+1) / float64(half)
+			jt := 1 + r.Range(-0.2, 0.2) // jitter: no three vertices exactly collinear (general position)
+			pts = append(pts, geom.Point{X: ox + t*dx - jt*width*t/scale*dy, Y: oy + t*dy + jt*width*t/scale*dx})
+		}
+		for i := half - 1; i >= 1 && len(pts) < n; i-- {
+			t := scale * (float64(i) + 0.5) / float64(half)
+			jt := 1 + r.Range(-0.2, 0.2)
+			pts = append(pts, geom.Point{X: ox + t*dx + jt*width*t/scale*dy, Y: oy + t*dy - jt*width*t/scale*dx})
+		}
+		pts = append([]geom.Point{{X: ox, Y: oy}}, pts...)
 	case "random":
 		for i := 0; i < n; i++ {
 			pts = append(pts, geom.Point{X: ox + scale*r.Range(-1, 1), Y: oy + scale*r.Range(-1, 1)})
